@@ -98,12 +98,14 @@ class FifoExec(Exec):
             return self.body_env()
         return self.body_pool()
 
-    def consume(self, it):
+    def consume(self, it, limit=None):
         out = []
         try:
             for z in it:
                 self.received += 1
                 out.append(norm(z))
+                if limit is not None and len(out) >= limit:
+                    break
         except Boom as e:
             out.append(('RAISED',) + norm(e))
         return out
@@ -186,17 +188,30 @@ class FifoExec(Exec):
                     can_wait = r != 'timeout' and not state['stop']
                     continue
                 can_wait = True
-                x = self.waiting.pop(c)
-                self.order.append(x)
-                self.released.add(x)
+                tok = self.waiting.pop(c)
+                self.order.append(tok[1])
+                self.released.add(tok)
 
         et = threading.Thread(target=env, name='env')
         et.start()
-        it = iter(Stream(self.source()).parmap(self.work, executor='thread', concurrency=cfg['conc'],
-                                               return_x=cfg['rx'], return_exceptions=cfg['rex'],
-                                               preprocessor=self.pre if cfg.get('rej') is not None else None))
-        out = self.consume(it)
-        it.close()
+        outer = self
+
+        class Source:
+            def __iter__(self):
+                return outer.source()
+
+        stream = Stream(Source()).parmap(self.work, executor='thread', concurrency=cfg['conc'],
+                                         return_x=cfg['rx'], return_exceptions=cfg['rex'],
+                                         preprocessor=self.pre if cfg.get('rej') is not None else None)
+        rounds = cfg.get('rounds', 1)
+        for rnd in range(rounds):
+            # rounds > 1: the same Stream is iterated again right after a round that ended early (consumer stopped after
+            # `stop_after` outputs, or an element failed) while calls of that round may still be inside the worker function
+            self.round = rnd
+            self.pulled = self.received = 0
+            it = iter(stream)
+            out = self.consume(it, cfg.get('stop_after') if rnd < rounds - 1 else None)
+            it.close()
         state['stop'] = True
         et.join()
         return out, sorted(self.calls)
@@ -205,8 +220,9 @@ class FifoExec(Exec):
         s = sched.S()
         self.running += 1
         self.calls.append(x)
-        self.waiting.append(x)
-        s.block(lambda: x in self.released, None, on='work-gate')
+        tok = (getattr(self, 'round', 0), x)
+        self.waiting.append(tok)
+        s.block(lambda: tok in self.released, None, on='work-gate')
         self.running -= 1
         if x == self.cfg.get('fail'):
             raise Boom('func', x)
